@@ -73,6 +73,7 @@ fn documented_panic(_msg: &str) -> bool {
 }
 
 pub fn execute(scn: &Scn, property: &str) -> RunOutcome {
+    simmodel::normalise_hidden_state();
     let mut out = RunOutcome::default();
     let mut h = ObsHash::default();
     let spec = &scn.spec;
@@ -578,9 +579,67 @@ pub fn execute(scn: &Scn, property: &str) -> RunOutcome {
             // -------------------------------------------------------------------------------
             "C08" => {
                 out.evaluations += 1;
+                // Per-component reading of "evaluating a timeline never modifies a property for
+                // which it has no keyframe": each component of the current state's merged
+                // timeline, alone, started from the values the state was entered with and evaluated
+                // at the current time into a copy of the current values, must leave every property
+                // *it* does not keyframe untouched (inside a merged timeline another component may
+                // keyframe that property, which would hide the write from the whole-state check).
+                if let Some(m) = spec.states[model.cur].as_ref() {
+                    if m.parts.len() >= 2 || step % 4 == 0 {
+                        let t = now.tau.as_secs_f32();
+                        for (ci, part) in m.parts.iter().enumerate() {
+                            let probe = catch(|| {
+                                let mut tl = part.build();
+                                if let Some(e) = &model.entry[model.cur] {
+                                    tl.start_with(e);
+                                }
+                                let mut probe = now.values.clone();
+                                tl.update(&mut probe, t);
+                                probe
+                            });
+                            if let Ok(probe) = probe {
+                                out.count("probe.component_evaluated_alone");
+                                for prop in 0..4 {
+                                    if !part.keyframes_prop(prop) {
+                                        let b = oracle::get_prop(&now.values, prop);
+                                        let a = oracle::get_prop(&probe, prop);
+                                        let same = match (a, b) {
+                                            (PropVal::F(x), PropVal::F(y)) => x.to_bits() == y.to_bits(),
+                                            (x, y) => x == y,
+                                        };
+                                        if !same && v.is_none() {
+                                            v = Some(viol(
+                                                "C08",
+                                                "component-wrote-unkeyed-property",
+                                                step,
+                                                format!(
+                                                    "state {} component {ci} (phase {after_phase:?}) evaluated alone at {t}s changed property {} from {b:?} to {a:?} although that component has no keyframe for it",
+                                                    model.cur, PROP_NAMES[prop]
+                                                ),
+                                                format!("prop={} component", PROP_NAMES[prop]),
+                                            ));
+                                        }
+                                    }
+                                }
+                                if probe.tag != now.values.tag && v.is_none() {
+                                    v = Some(viol(
+                                        "C08",
+                                        "excluded-field-written",
+                                        step,
+                                        format!("component {ci} evaluated alone changed the excluded field"),
+                                        "tag component".into(),
+                                    ));
+                                }
+                            }
+                        }
+                    }
+                }
                 // which timeline could legitimately have written during this op?
                 let writer = spec.states[model.cur].as_ref();
-                if now.values.tag != TAG_SENTINEL {
+                if v.is_some() {
+                    // already decided by the per-component probe
+                } else if now.values.tag != TAG_SENTINEL {
                     v = Some(viol(
                         "C08",
                         "excluded-field-written",
